@@ -1470,7 +1470,10 @@ class HtmlTreeView(HtmlView):
       )
 
     # Deep hierarchy merge.
-    return utils.merge_tree(call_kwargs, overriden_kwargs)
+    # NOTE: `utils.merge` works on copies; `merge_tree` would patch the nested
+    # dicts (e.g. `extra_flags`) that the shallow copy shares with the kwargs
+    # inherited by the sibling nodes.
+    return utils.merge([call_kwargs, overriden_kwargs])
 
   @staticmethod
   def merge_uncollapse(
